@@ -25,6 +25,9 @@ PRELUDE = r"""
     /// stubs for interning (same value, no sharing): FxHashSet over symbolic contents is out of CBMC's reach
     pub fn __stub_cached_str(_d: &mut Deserializer, s: &str) -> ValueObj { ValueObj::Str(Str::rc(s)) }
     pub fn __stub_cached_arr(_d: &mut Deserializer, arr: &[ValueObj]) -> ValueObj { ValueObj::List(ArcArray::from(arr)) }
+    /// the error value's text is not the subject (fn_name!() searches type names with str::rfind: pattern-matching loops)
+    pub fn __stub_broken() -> DeserializeError { DeserializeError { errno: 0, caused_by: String::new(), desc: String::new() } }
+    pub fn __stub_err_new<S: Into<String>, T: Into<String>>(errno: usize, _c: S, _d: T) -> DeserializeError { DeserializeError { errno, caused_by: String::new(), desc: String::new() } }
     /// reference: CPython marshal.c r_object for TYPE_INT ('i') and TYPE_LONG ('l'); returns (value, bytes consumed)
     pub fn __ref_int(b: &[u8]) -> Option<(i128, usize)> {
         if b.is_empty() { return None; }
@@ -234,37 +237,61 @@ def common_misc(hist_magics):
         let b = get_magic_num_bytes(m & 0xffff);
         let back = get_magic_num_from_bytes(&b);
         assert!(back == (m & 0xffff), "rt: the 16-bit magic word survives the 4-byte header");
-        let v = get_ver_from_magic_num(back);
-        assert!(v.major == 3, "major: a recognised magic word is a Python 3 version");""",
-                "get_ver_from_magic_num/any-word", asserts={"rt": "", "major": ""}, covers=["reach"],
+        match try_get_ver_from_magic_num(back) {
+            Some(v) => { kani::cover!(true, "reach-known"); assert!(v.major == 3 && v.minor.is_some(), "major: a recognised magic word is a Python 3.x version"); }
+            None => { kani::cover!(true, "reach-unknown"); }
+        }""",
+                "try_get_ver_from_magic_num/any-word", asserts={"rt": "", "major": ""}, covers=["reach", "reach-known", "reach-unknown"],
                 meta=dict(shape="every 16-bit magic word as read from a .pyc header", symbolic=["m: u32"], bounds={})))
     return hs
 
 
+ERR_STUBS = [("crate::ty::deserialize::DeserializeError::file_broken_error", "__stub_broken"),
+             ("crate::ty::deserialize::DeserializeError::new", "__stub_err_new")]
+
+
 def reader_leaf(L):
-    """the reader's primitives on a buffer of L symbolic bytes: no panic, consume exactly what they return"""
+    """the reader's primitives on a buffer of L symbolic bytes: never a panic; Ok consumes exactly what it returns, Err otherwise"""
     hs = []
     body = """        let a: [u8; %d] = kani::any();
         let mut v: Vec<u8> = a[..%d].to_vec();
         kani::cover!(true, "reach");
-        let x = Deserializer::deserialize_u32(&mut v);
-        assert!(%d >= 4, "total: fewer than 4 bytes must be reported as a broken file, not read");
-        assert!(v.len() + 4 == %d && x == u32::from_le_bytes([a[0], a[1], a[2], a[3]]), "value: little-endian u32, 4 bytes consumed");
-        std::mem::forget(v);""" % (max(L, 4), L, L, L)
-    hs.append(H("r_u32_%d" % L, body, "deserialize_u32/len=%d" % L, unwind=L + 6, asserts={"value": ""} if L >= 4 else {},
+        let r = Deserializer::deserialize_u32(&mut v);
+        match &r {
+            Ok(x) => { assert!(%d >= 4 && v.len() + 4 == %d && *x == u32::from_le_bytes([a[0], a[1], a[2], a[3]]), "value: little-endian u32, exactly 4 bytes consumed"); }
+            Err(_) => { assert!(%d < 4, "short: an error only when fewer than 4 bytes are left"); }
+        }
+        std::mem::forget(r); std::mem::forget(v);""" % (max(L, 4), L, L, L, L)
+    hs.append(H("r_u32_%d" % L, body, "deserialize_u32/len=%d" % L, unwind=L + 6, stubs=ERR_STUBS,
+                asserts=({"value": ""} if L >= 4 else {"short": ""}),
                 covers=["reach"], meta=dict(shape="buffer of %d bytes" % L, symbolic=["every byte"], bounds={"buffer_bytes": L}, cost=L + 1)))
-    body = """        let a: [u8; %d] = kani::any();
+    body = """        let mut a: [u8; %d] = kani::any();
+        %s
         let mut v: Vec<u8> = a[..%d].to_vec();
         let des = Deserializer::new();
         kani::cover!(true, "reach");
         let r = des.deserialize_bytes(&mut v);
         match &r {
-            Ok(bs) => { assert!(a[0] & 0x7f == b's' && bs.len() + 5 + v.len() == %d, "ok: a TYPE_STRING object, payload and header consumed exactly"); }
-            Err(_) => {}
+            Ok(bs) => {
+                kani::cover!(true, "reach-ok");
+                assert!(%d >= 5 && a[0] & 0x7f == b's' && bs.len() + 5 + v.len() == %d, "ok: a TYPE_STRING object; header and payload consumed exactly");
+                let n = u32::from_le_bytes([a[1], a[2], a[3], a[4]]) as usize;
+                assert!(bs.len() == n, "len: the payload has the length the header announces");
+            }
+            Err(_) => { kani::cover!(true, "reach-err"); }
         }
-        std::mem::forget(r); std::mem::forget(v); std::mem::forget(des);""" % (max(L, 1), L, L)
-    hs.append(H("r_bytes_%d" % L, body, "deserialize_bytes/len=%d" % L, unwind=L + 6, asserts={"ok": ""} if L >= 5 else {},
-                covers=["reach"], meta=dict(shape="buffer of %d bytes" % L, symbolic=["every byte"], bounds={"buffer_bytes": L}, cost=L + 2)))
+        std::mem::forget(r); std::mem::forget(v); std::mem::forget(des);"""
+    # with a TYPE_STRING first byte the only error is a short buffer (file_broken_error, stubbed)
+    hs.append(H("r_bytes_%d" % L, body % (max(L, 5), "a[0] = b's';" if L >= 1 else "", L, L, L), "deserialize_bytes/len=%d/first=s" % L, unwind=L + 6, stubs=ERR_STUBS,
+                asserts=({"ok": "", "len": ""} if L >= 5 else {}),
+                covers=["reach", "reach-err"] + (["reach-ok"] if L >= 5 else []),
+                meta=dict(shape="buffer of %d bytes starting with TYPE_STRING" % L, symbolic=["every other byte"], bounds={"buffer_bytes": L}, cost=L + 2)))
+    if L == 3:
+        # any other first byte: the "failed to load bytes" error, whose construction evaluates fn_name!() (str::rfind over the
+        # ~70-character type name) before the stubbed constructor is reached: unwind 100
+        hs.append(H("r_bytes_other", body % (5, "kani::assume(a[0] != b's' && a[0] != 0xf3);", 3, 3, 3), "deserialize_bytes/len=3/first=other", unwind=100, stubs=ERR_STUBS,
+                    asserts={}, covers=["reach", "reach-err"], cap=900,
+                    meta=dict(shape="buffer of 3 bytes not starting with TYPE_STRING", symbolic=["every byte"], bounds={"buffer_bytes": 3}, cost=50)))
     return hs
 
 
@@ -304,12 +331,12 @@ def run(tier, seed, only=None):
         rep.add_function("ValueObj::into_bytes", "crates/erg_compiler/ty/value.rs", extract_fn(vtxt, "into_bytes"))
         for fn in ("deserialize_const", "deserialize_bytes", "deserialize_u32", "consume"):
             rep.add_function("Deserializer::" + fn, "crates/erg_compiler/ty/deserialize.rs", extract_fn(dtxt, fn))
-        for fn in ("str_into_bytes", "strs_into_bytes", "raw_string_into_bytes", "get_ver_from_magic_num", "get_magic_num_bytes"):
+        for fn in ("str_into_bytes", "strs_into_bytes", "raw_string_into_bytes", "try_get_ver_from_magic_num", "get_magic_num_bytes"):
             rep.add_function(fn, "crates/erg_common/serialize.rs", extract_fn(stxt, fn))
         source_links(rep, dtxt, stxt)
         if tier == "quick":
             shapes = ["", "A", "2", "4", "AA", "A3", "AAA", "3A", "AA2A"]
-            strs = [(0, 0), (1, 1), (2, 1), (2, 2)]
+            strs = [(0, 0)]      # n >= 1 needs > 300 s (Vec<Str> iteration + Arc drop glue): thorough tier
             raws = [0, 1, 3]
             leafs = [0, 3, 4, 5, 7]
         else:
